@@ -363,4 +363,10 @@ pub open spec fn closures_ok<D: Fn(u32, u32) -> u32, F: Fn(u32) -> bool>(n: u32,
     &&& forall|x: u32, c: u32, r1: u32, r2: u32| x < n && c < m && #[trigger] call_ensures(delta, (x, c), r1) && #[trigger] call_ensures(delta, (x, c), r2) ==> r1 == r2
     &&& forall|x: u32| x < n ==> #[trigger] call_requires(is_final, (x,))
     &&& forall|x: u32, r1: bool, r2: bool| x < n && #[trigger] call_ensures(is_final, (x,), r1) && #[trigger] call_ensures(is_final, (x,), r2) ==> r1 == r2
+    // the closures return when called on the domain (so that "the value they return" is defined)
+    &&& forall|x: u32, c: u32| x < n && c < m ==> #[trigger] d_returns(delta, x, c)
+    &&& forall|x: u32| x < n ==> #[trigger] f_returns(is_final, x)
 }
+
+pub open spec fn d_returns<D: Fn(u32, u32) -> u32>(delta: D, x: u32, c: u32) -> bool { exists|r: u32| call_ensures(delta, (x, c), r) }
+pub open spec fn f_returns<F: Fn(u32) -> bool>(is_final: F, x: u32) -> bool { exists|r: bool| call_ensures(is_final, (x,), r) }
